@@ -1,0 +1,9 @@
+//go:build !verif
+
+package state
+
+// verifSeqCheck and verifSeqReset are verification hooks; they do nothing
+// unless built with the "verif" build tag.
+func verifSeqCheck(*SequenceHandler, uint32, uint32, uint64) {}
+
+func verifSeqReset(*SequenceHandler) {}
